@@ -51,4 +51,9 @@ AcceptableWork(rec) ==
     /\ rec.outcome \in {"value", "exception"}
     /\ rec.calls <= CallsPerStep * StepBound(rec.len, rec.siglen) + CallSlack
     /\ rec.cpu_ms <= CpuMsPerStep * StepBound(rec.len, rec.siglen) + CpuSlackMs
+
+(* "an exception costs the peer only its own connection": decoding is a function of the bytes alone.  A
+   recorded pair [before, after] = what a valid message decoded to before and after a run of hostile inputs
+   (on other connections of the same process) is acceptable iff nothing changed. *)
+AcceptableIsolation(rec) == rec.before.outcome = "value" /\ rec.after = rec.before
 =============================================================================
